@@ -1058,12 +1058,22 @@ class Interp:
             for n in ast.walk(st):
                 if isinstance(n, (ast.Assign, ast.AugAssign, ast.AnnAssign)):
                     tg = n.targets if isinstance(n, ast.Assign) else [n.target]
+                    def targets_of(t):
+                        if isinstance(t, (ast.Tuple, ast.List)):
+                            for e in t.elts:
+                                targets_of(e)
+                        elif isinstance(t, ast.Starred):
+                            targets_of(t.value)
+                        elif isinstance(t, ast.Name):
+                            names.add(t.id)
+                        elif isinstance(t, ast.Subscript):
+                            base = t
+                            while isinstance(base, ast.Subscript):
+                                base = base.value        # x[i][j] = v modifies x; names inside the index expressions are only read
+                            if isinstance(base, ast.Name):
+                                names.add(base.id)
                     for t in tg:
-                        for x in ast.walk(t):
-                            if isinstance(x, ast.Name) and isinstance(x.ctx, ast.Store):
-                                names.add(x.id)
-                            if isinstance(x, ast.Subscript) and isinstance(x.value, ast.Name):
-                                names.add(x.value.id)
+                        targets_of(t)
                 elif isinstance(n, ast.Call) and isinstance(n.func, ast.Attribute) and isinstance(n.func.value, ast.Name) \
                         and n.func.attr in ('append', 'extend', 'add', 'update'):
                     names.add(n.func.value.id)
